@@ -13,6 +13,7 @@ func init() {
 		ruleEnumLib(c, r)
 		ruleReflectSign(c, r, c.funcsInScope(func(s string) bool { return s == "ygot/render.go" || s == "ytypes/util_types.go" }, libPkgs), 4)
 		ruleBase64Std(c, r)
+		ruleUnionNameClash(c, r)
 	})
 	register("C02", func(c *Ctx, r *Report) {
 		r.Decides("gNMI scalar wrapper produced per YANG kind is accepted by the decoder; every key kind has a string form and both parsers; every leaf-list element kind is encodable.",
@@ -274,6 +275,8 @@ func init() {
 		ruleTagInterval(c, r)
 		ruleTagPure(c, r)
 		ruleTagUniq(c, r)
+		ruleEnumLabelUniq(c, r)
+		ruleProtoScopeNames(c, r)
 		ruleProtoCorpus(c, r)
 	})
 }
@@ -386,6 +389,7 @@ func init() {
 		ruleRelPathPositional(c, r)
 		ruleFieldMethodClash(c, r)
 		ruleTypeNameGuard(c, r)
+		ruleUnionNameClash(c, r)
 	})
 }
 
